@@ -1,5 +1,6 @@
 """C02 — close and reopen preserves the complete entity tree."""
-from checks.storegen import World, NAMES, PLAIN
+from checks.storegen import World, NAMES, PLAIN, with_hdump
+from vlib.tok import f64, s as S, lst
 from checks import C04
 ID = 'C02'
 THEOREMS = ['Nix.St.newFile_rootOK', 'Nix.St.reopenRW_id', 'Nix.St.reopen_observe_eq', 'Nix.St.reopen_then_continue', 'Nix.St.setAttr_rootOK',
@@ -15,14 +16,56 @@ LEVEL_TEXT = ("Lean 4 theorems about the store model: the observable tree is a f
 LEVEL_NOTE = ("Trusted: Lean kernel; the abstract HDF5 store of lean/NixModel/Store.lean (objects, attributes, ordered hard links, removeAllLinks = every link to the object goes, creation-order index) and the hand-written entity layer lean/NixModel/Entities.lean, both validated on every run: the model replays every op of every generated history and must predict the library's answer (result / exception class, looked-up ids, counts, enumerations, cross-checks) and, at every dump, the whole observable tree (observe); ids and creation times are taken from the trace; fields the store model does not carry (array data, dimension descriptors, calibration, property values, row counts) are compared between dumps of the library only; harness dump = every public getter of every entity. What HDF5 does between H5Fclose and the bytes on disk is trusted.")
 ASSUMPTIONS = []
 
+def stale_route(w, rng):
+    """an entity fetched THROUGH a holder (tag reference, attached source, group member), the holder's link removed again: the
+    handle's remembered route is gone while the entity lives on; it is then asked whether it is valid / still in its block"""
+    for rel, holders, kind in (('src', ['A', 'T', 'G'], 'O'), ('ref', ['T', 'M'], 'A'), ('mA', ['G'], 'A'), ('mT', ['G'], 'T')):
+        h = w.pick(holders)
+        if not h or rng.random() < 0.5: continue
+        x = w.pick(kind, block=h.block)
+        if not x: continue
+        slot = w.fresh()
+        w.emit('link %s %s handle %s' % (rel, h.slot, x.slot))
+        w.emit('getlinkh %s %s %s idof %s' % (slot, rel, h.slot, x.slot))
+        w.emit('unlink %s %s handle %s' % (rel, h.slot, slot))
+        w.emit('valid %s' % slot)
+        if x.parent == x.block:
+            w.emit('has %s %s handle %s' % (kind, x.block, slot))
+
+def readonly_interlude(w, rng):
+    """a read-only session in which mutators are attempted (all refused); what it shows before its close is what the next session shows"""
+    w.emit('dump')
+    w.emit('fdrop'); w.emit('fopen ro auto')
+    w.rebind()
+    for _ in range(rng.randint(2, 6)):
+        q = rng.random()
+        if q < 0.35: w.random_set()
+        elif q < 0.75: w.random_content_step()
+        elif q < 0.85:
+            b = w.pick('B')
+            if b: w.random_link(b)
+        else:
+            a = w.pick('A')
+            if a: w.emit('set %s %s' % (a.slot, rng.choice(['origin ' + f64(2.5), 'poly ' + lst([f64(1.0), f64(3.0)])])))
+    w.emit('dump')
+    w.emit('fdrop'); w.emit('fopen rw auto')
+    w.emit('dump')
+    w.rebind()
+
 def history(rng, tier):
     w = World(rng, names=NAMES if rng.random() < 0.5 else PLAIN)
     w.open('ow')
     n = rng.randint(25, 60 if tier == 'quick' else 120)
     for i in range(n):
         w.random_step()
+        if rng.random() < 0.3:
+            w.random_content_step()
         if rng.random() < 0.05:
             C04.dense_links(w, rng)
+        if rng.random() < 0.04:
+            stale_route(w, rng)
+        if rng.random() < 0.025:
+            readonly_interlude(w, rng)
         if rng.random() < 0.06:
             w.emit('fflush')
         if rng.random() < 0.07:
@@ -73,7 +116,7 @@ def history(rng, tier):
 def cases(tier, seed, rng):
     from vlib.runner import Case
     n = 50 if tier == 'quick' else 1200
-    return [Case(history(rng, tier), 'gen:tree') for _ in range(n)]
+    return [Case(with_hdump(history(rng, tier), rng), 'gen:tree') for _ in range(n)]
 
 def nontrivial(case, tags):
     return any(t.startswith('dump.after_reopen') for t in tags)
